@@ -189,6 +189,23 @@ def generate(rng: Prng, tier: str) -> dict:
         if st.get("k") == "apply" and st.get("op") == "transform" and earlier and rp.chance(0.2):
             st["spec"] = copy.deepcopy(earlier[-1]["spec"])
             st["t"] = -1
+    dp = rng.stream("deep")
+    if dp.chance(0.012):
+        # "starting from all well-formed trees": one run in ~80 starts from a tree of 1100-2400 nodes whose depth is
+        # at least a third of that (an operation that recurses per node, or is quadratic in the node count, shows
+        # only there), with a short program whose node arguments range over the whole tree
+        n = dp.randint(1100, 2400)
+        t = tree_model.gen_tree(dp, n, dp.choice(["chain", "stemmed", "stemmed", "caterpillar"]), wild=False,
+                                types=[0, 1, 2, 2, 3, 3, 3, 4, 5])
+        t["type"][0] = dp.choice([1, 1, 3])
+        trees = [t]
+        steps = [gen_step(dp) for _ in range(dp.randint(2, 5))]
+        for st in steps:
+            for key in ("n", "n1", "n2", "node"):
+                if key in st and st[key] != 0:
+                    st[key] = dp.below(1 << 20)
+            if "rm" in st:
+                st["rm"] = [dp.below(1 << 20) for _ in st["rm"]]
     has_cancel = any(s["k"] == "cancel" for s in steps)
     return {"prop": PROP, "trees": trees, "steps": steps, "config": "faulting" if has_cancel else "fault_free"}
 
@@ -420,6 +437,8 @@ def execute(program: dict) -> dict:
             pool.append({"tree": t, "snap": common.snapshot(t), "born": len(pool)})
         cache: dict = {}
         born = len(pool)
+        if any(len(e["tree"]) >= 1000 for e in pool):
+            world.probe("c03.tree_of_1000_nodes_or_more")
         for si, step in enumerate(program["steps"]):
             steps += 1
             kind = step["k"]
